@@ -438,6 +438,10 @@ class C19(Spec):
     def units(self, tier):
         return []
 
+    def prebuild(self, tier, jobs):
+        import progmatrix
+        progmatrix.run_matrix([(g, GROUPS[g]) for g in ALL_GROUPS], SCALARS, tier, jobs, build_only=True)
+
     def run_python(self, tier, seed, jobs, deadline, replay_obj):
         import progmatrix
         groups = [(g, GROUPS[g]) for g in ALL_GROUPS]
